@@ -5,6 +5,7 @@
 //!   verif-harness <area> --tier quick|thorough --seed N --out DIR [--replay "<op>\t<tree>"]
 mod areas;
 mod astwire;
+mod objwire;
 mod ctx;
 mod rng;
 mod tree;
